@@ -1,10 +1,12 @@
 (* Properties_C13.v -- C13: every call returns; work and heap are bounded.
    Statements only.  Returning: P_HeaderSafe (stream, parser, basic reader) and
    P_Decoder (the decoder API stops at the declared length).  The linear work
-   bound and the heap accounting are added from P_Bounds.v when completed; until
-   then they are decided by the driver's request and allocation accounting. *)
+   bound, "a truncated member ends the archive", the bound on inner-decoder
+   invocations and the heap accounting are proved in P_Bounds.v (source requests
+   = read + skip callbacks counted by the model's source; heap = the sizes of the
+   objects the C allocates, sizeof values regenerated from the C). *)
 From Lhasa Require Import Base ListN Generated DecBase InputStream Header BasicReader Decoder
-  P_Decoder P_DecoderInv P_HeaderSafe P_Intact.
+  P_Decoder P_DecoderInv P_HeaderSafe P_Intact P_Bounds.
 Local Open Scope N_scope.
 
 (* Every call of the header iteration returns (streams below 12 MiB: the model's
@@ -44,8 +46,80 @@ Theorem decode_stops_at_declared : forall (cbs st : Type) (dread : st -> cbs -> 
   lha_decoder_read dread max_read block_size d n = Ok ([], [], d).
 Proof. intros cbs st dread mr bs I H. exact (stops_at_declared_length_inv dread mr bs I H). Qed.
 
+(* --- work: listing does work proportional to the bytes actually present --- *)
+
+(* one next_file call: 3 * requests + bytes left never grows by more than 15 *)
+Theorem next_file_work : forall mktime r h r', reader_inv r ->
+  lha_basic_reader_next_file mktime r = Ok (h, r') ->
+  reader_inv r' /\ ravail r' <= ravail r /\
+  3 * rrequests r' + ravail r' <= 3 * rrequests r + ravail r + 15.
+Proof. exact P_Bounds.next_file_work. Qed.
+
+(* n calls on ANY data through any of the four stream kinds: at most len/3 + 5n
+   source requests (reads + skips), whatever the headers declare *)
+Theorem listing_work_linear : forall mktime k data n r',
+  iterate_next_file mktime n (lha_basic_reader_new (lha_input_stream_new (mk_source k data))) = Ok r' ->
+  3 * rrequests r' + ravail r' <= nlen data + 15 * N.of_nat n /\
+  rrequests r' <= nlen data / 3 + 5 * N.of_nat n.
+Proof. exact P_Bounds.listing_work_linear. Qed.
+
+Theorem listing_returns_within_budget : forall mktime k data n, nlen data < EXT_LIMIT ->
+  exists r', iterate_next_file mktime n (lha_basic_reader_new (lha_input_stream_new (mk_source k data))) = Ok r'
+             /\ rrequests r' <= nlen data / 3 + 5 * N.of_nat n.
+Proof. exact P_Bounds.listing_returns_within_budget. Qed.
+
+(* --- skipping a member whose data is truncated ends the archive (all four kinds;
+       also after the member has been partly read) --- *)
+Theorem truncated_member_ends_archive : forall mktime r x r', truncated_member r ->
+  lha_basic_reader_next_file mktime r = Ok (x, r') ->
+  x = None /\ forall n, next_file_n mktime n r' = Ok (None, r').
+Proof. exact P_Bounds.truncated_member_ends_archive. Qed.
+
+Theorem skip_truncated_after_header : forall mktime r0 hd r x r',
+  wf_reader r0 -> reader_inv r0 ->
+  lha_basic_reader_next_file mktime r0 = Ok (Some hd, r) ->
+  data_left (br_stream r) < h_compressed_length hd ->
+  lha_basic_reader_next_file mktime r = Ok (x, r') ->
+  x = None /\ forall n, next_file_n mktime n r' = Ok (None, r').
+Proof. exact P_Bounds.skip_truncated_after_header. Qed.
+
+(* --- heap: fixed objects (stream, readers, the largest decoder state, the
+       pass-through decoder) + the header being read, with realloc's transient
+       copy, stay below 8 MiB + 2 * bytes consumed; retained headers are paid by
+       input bytes --- *)
+Theorem heap_bound : forall mktime st h st' consumed,
+  (forall old nbytes strs, old <= consumed -> nbytes <= MiB -> strs <= 2 * (MiB + 1) + 4 ->
+     sizeof_LHAInputStream + sizeof_LHABasicReader + sizeof_LHAReader + max_decoder_bytes + macbinary_bytes
+     + (extend_peak old nbytes + strs) <= 8 * MiB + 2 * consumed) /\
+  (lha_file_header_read mktime st = Ok (Some h, st') -> avail st - avail st' <= consumed ->
+     sizeof_LHAInputStream + sizeof_LHABasicReader + sizeof_LHAReader + max_decoder_bytes + macbinary_bytes
+     + header_bytes h <= 8 * MiB + 2 * consumed).
+Proof. exact P_Bounds.heap_bound. Qed.
+
+(* a request to grow a header beyond 1 MiB in one step is refused before anything is allocated *)
+Theorem header_growth_capped : forall h st n, MiB < n -> extend_raw_data h st n = Ok (None, st).
+Proof. exact P_Bounds.extend_raw_data_refuses. Qed.
+
+Theorem largest_decoder_state : max_decoder_bytes = 2099544 /\ fixed_bytes = 2104016.
+Proof. split; [exact max_decoder_bytes_value|exact fixed_bytes_value]. Qed.
+
+Theorem retained_headers_bound : forall mktime n r hs r',
+  collect_headers mktime n r = Ok (hs, r') ->
+  sum_N (map header_bytes hs) + 5 * ravail r' <=
+    5 * ravail r + nlen hs * (sizeof_LHAFileHeader + 14) /\ ravail r' <= ravail r.
+Proof. exact P_Bounds.retained_headers_bound. Qed.
+
 Print Assumptions next_file_returns.
 Print Assumptions skip_returns.
 Print Assumptions end_is_final.
 Print Assumptions decode_read_returns.
 Print Assumptions decode_stops_at_declared.
+Print Assumptions next_file_work.
+Print Assumptions listing_work_linear.
+Print Assumptions listing_returns_within_budget.
+Print Assumptions truncated_member_ends_archive.
+Print Assumptions skip_truncated_after_header.
+Print Assumptions heap_bound.
+Print Assumptions header_growth_capped.
+Print Assumptions largest_decoder_state.
+Print Assumptions retained_headers_bound.
